@@ -370,7 +370,7 @@ fn solve_with_config_from(problem: Arc<vrp_core::models::Problem>, config: &Valu
         Some(doc) => {
             let text = serde_json::to_string(doc).unwrap();
             let solution = vrp_pragmatic::format::solution::read_init_solution(BufReader::new(text.as_bytes()), problem.clone(), Arc::new(DefaultRandom::default()))
-                .map_err(|e| format!("init solution: {e}"))?;
+                .map_err(|e| format!("generated problem is invalid: the initial solution is not readable: {e}"))?;
             vec![vrp_core::construction::heuristics::InsertionContext::new_from_solution(problem.clone(), (solution, None), quiet_env())]
         }
         None => vec![],
